@@ -88,7 +88,7 @@ M("c18-new-global", "C18", "json_object.c",
 
 # ---- C13 -------------------------------------------------------------------------------------
 M("c13-drop-null-guard", "C13", "json_patch.c",
-  "\tif (from_s == NULL) {\n\t\t_set_err(EINVAL, \"Patch object has a null 'from' field\");\n\t\treturn -1;\n\t}\n", "",
+  "\tif (from_s == NULL) {\n\t\t_set_err(EINVAL, \"Invalid from field\");\n\t\treturn -1;\n\t}\n", "",
   needle="json_patch_apply_move_copy")
 M("c13-swap-flags", "C13", "json_patch.c",
   "rc = json_patch_apply_move_copy(base, patch_elem, path, 0, patch_error);", "rc = json_patch_apply_move_copy(base, patch_elem, path, 1, patch_error);",
@@ -111,7 +111,7 @@ M("c13-failure-idx-late", "C13", "json_patch.c",
 M("c13-del-escaped-key", "C13", "json_patch.c",
   "\t\tjson_pointer_unescape_token(key);\n\t\tjson_object_object_del(jpres->parent, key);", "\t\tjson_object_object_del(jpres->parent, key);", needle="C13.R6")
 M("c13-benign-guard-style", "C13", "json_patch.c",
-  "\t\tif (op == NULL || path == NULL) {", "\t\tif (!op || !path) {", expect="silent")
+  "\t\tif (op == NULL) {", "\t\tif (!op) {", expect="silent")
 
 # ---- C12 -------------------------------------------------------------------------------------
 M("c12-accept-empty", "C12", "json_pointer.c",
@@ -244,7 +244,7 @@ M("c01-benign-switch-to-if", "C01", "json_tokener.c",
 # ---- C04 -------------------------------------------------------------------------------------
 M("c04-lookahead", "C04", "json_tokener.c",
   "\t\t\telse if (c == '/')\n\t\t\t{\n\t\t\t\tstate = json_tokener_state_comment_eol;",
-  "\t\t\telse if (c == '/' && str[1] != '!')\n\t\t\t{\n\t\t\t\tstate = json_tokener_state_comment_eol;", needle="look-ahead")
+  "\t\t\telse if (c == '/' && str[1] != '!')\n\t\t\t{\n\t\t\t\tstate = json_tokener_state_comment_eol;", needle="outside the chunk")
 M("c04-reset-forgets-hs", "C04", "json_tokener.c",
   "\ttok->err = json_tokener_success;\n\ttok->high_surrogate = 0;\n}", "\ttok->err = json_tokener_success;\n}", needle="high_surrogate")
 M("c04-reset-skips-level0", "C04", "json_tokener.c",
